@@ -397,8 +397,7 @@ pub broadcast axiom fn axiom_split_inputs(a: Seq<char>)
     requires valid_id(a),
     ensures #[trigger] str_split_once(key_inputs(a), "!!!"@) == Some((a, Seq::<char>::empty()));
 pub broadcast axiom fn axiom_split_some(s: Seq<char>)
-    requires str_contains_sep(s),
-    ensures (#[trigger] str_split_once(s, "!!!"@)) is Some;
+    ensures (#[trigger] str_split_once(s, "!!!"@)) is Some <==> str_contains_sep(s);   // std: split_once finds the pattern iff it occurs
 
 pub broadcast group group_verif_str_axioms {
     axiom_suffix_contains_sep,
